@@ -104,6 +104,19 @@ def check(ctx):
     ok = bool(sets) and bool(flags) and len(sets) == len(flags) and all(
         any(s.id in Cn.cfg.reachable(f.id, removed_nodes=[h.id for h in Cn.cfg.nodes if h.kind == "for"]) for s in sets) for f in flags)
     ctx.check(ok, "T1-rule-shape", ch, "change: every detected difference updates the remembered value", "the next comparison is against the last logged value")
+    # every loggee's fields are compared on every run after the first: `change` is about field values, not stamps (a field
+    # can change without the share's stamp passing the log's: Share.change / share[f] = v / a write later in the same tick)
+    outer = [n for n in Cn.cfg.nodes if n.kind == "for" and src(n.ast.iter).replace(" ", "") in ("self.fields.items()", "self.loggees.items()", "self.lasts.items()")]
+    inner = [n for n in Cn.cfg.nodes if n.kind == "for" and dotted(n.ast.iter) == "fields"]
+    Cn.need(outer, "loop over the log's loggees in change")
+    Cn.need(inner, "loop over the loggee's fields in change")
+    it = [b for b, lab in Cn.cfg.succ[outer[0].id] if lab == "iter"]
+    skip = Cn.cfg.reachable(it, removed_nodes=[i.id for i in inner]) if it else {outer[0].id}
+    stamp_tests = [n for n in Cn.cfg.nodes if n.kind == "test" and "stamp" in src(n.ast.test) and
+                   id(n.ast) in {id(x) for x in ast.walk(outer[0].ast)}]
+    ctx.check(outer[0].id not in skip and not stamp_tests, "T1-rule-shape", ch,
+              "change: each run compares every logged field of every loggee (no loggee skipped, no stamp shortcut)",
+              "a logged field that changed since the last record without the share stamp passing the log stamp is never recorded")
     # drains
     ls = L.own_method("logStreak")
     S = FuncView(ctx, ls, exc="raise")
